@@ -5,6 +5,7 @@
 # during a mutant run go to a throw-away directory (VERIF_REPLAY_DIR), evidence likewise.
 set -u
 PATCH="$1"; ID="$2"; TIER="${3:-quick}"
+case "$PATCH" in -R:*) ;; /*) ;; *) PATCH="$(pwd)/$PATCH" ;; esac
 W="/dev/shm/molli-mut-$$"
 git -C /repo worktree add -q --detach "$W" HEAD || exit 2
 cp /repo/molli_xt*.so "$W"/ 2>/dev/null
